@@ -15,8 +15,9 @@ used = []
 for m in sorted(glob.glob(f"{root}/seeded/{prop}-*/meta.json")):
     j = json.load(open(m))
     import re
-    needs = re.sub(r"\s*[(;]\s*first (MISSED|caught)[^)]*\)?", "", j['needs']).rstrip()
-    if needs.count("(") > needs.count(")"): needs += ")"
+    # strip everything the verdict bookkeeping appended (nothing about the checks may reach a mutant agent)
+    needs = re.sub(r"[,;]?\s*\(?\s*(first NOT caught|first MISSED|NOT caught|caught)\b.*$", "", j['needs']).rstrip()
+    needs += ")" * (needs.count("(") - needs.count(")"))
     used.append(f"- {j['summary']} (needs: {needs})")
 if used:
     t = t.replace('("seeded defects" A and B; the kind', '("seeded defects" A and B — this is a LATER round: see the list of already-used ideas at the end and do something genuinely different, attacking clauses of the statement, code paths, configuration options, output files and helper modules that the earlier ideas did not touch; favour defects that need a multi-step sequence, state carried between calls/iterations/files, two cooperating sites that each look fine alone, a particular thread count/interleaving, or an unusual-but-legal configuration; do not use `git stash`; the kind')
